@@ -28,7 +28,7 @@ def _exec_chunk(items):
                 text0 = print_doc(it['doc'], it['fseed'], it['pinned'])
                 db0 = PyDBML(text0, allow_properties=m['allowprops'])
             else:
-                db0 = builder.build(m, note_as_object=it['route'] == 'built_notes')
+                db0 = builder.build(m, note_as_object='shared' if it['route'] == 'built_shared_notes' else it['route'] == 'built_notes')
             for flag in it.get('flips', []):            # C15: the database's flag is switched after it was built
                 db0.allow_properties = flag
                 _ = db0.dbml                            # and rendered in between
